@@ -37,6 +37,7 @@ func allInstances() []*Instance {
 	regC16(add, p)
 	regC19(add, p)
 	regC03(add, p)
+	regC01b(add, p)
 	regC19b(add, p)
 	regC13b(add, p)
 	regC10b(add, p)
@@ -117,6 +118,8 @@ func regC04(add addFn, p pFn) {
 	hv := []string{"lineartime", "decryptstub", "asn1havoc", "nfolduf", "des3rtkuf"}
 	add(&Instance{Property: "C04", Name: "apreq-verify-shapes", Entry: "messages.VH_C04_APReqVerifyShapes", Params: p("maxseq", 1, "maxstr", 1, "maxbits", 4), Stubs: hv, Logic: "QF_UFBV", Replay: "stubbed", Reach: []string{"returned"}, TimeoutS: 1200,
 		Bound: "AP-REQ verification with ticket/override names of 0..2 components and every decoded shape: sequences 0..2, strings 0..1, flags 0..4 bytes"})
+	add(&Instance{Property: "C04", Name: "apreq-verify-shapes-bytes", Entry: "messages.VH_C04_APReqVerifyShapes", Params: p("maxseq", 1, "maxstr", 1, "maxbits", 4, "bytelens", 0x1b011), Stubs: hv, Logic: "QF_UFBV", Replay: "stubbed", Reach: []string{"returned"}, TimeoutS: 1200,
+		Bound: "decoded byte strings (host addresses, ...) of 0, 4, 12, 13, 15 or 16 arbitrary bytes; AP-REQ verification with ticket/override names of 0..2 components and every decoded shape: sequences 0..2, strings 0..1, flags 0..4 bytes"})
 	add(&Instance{Property: "C04", Name: "getpactype-shapes", Entry: "messages.VH_C04_GetPACType", Params: p("maxseq", 2, "maxstr", 1, "maxbits", 4), Stubs: append([]string{"pacprocstub"}, hv...), Logic: "QF_UFBV", Replay: "stubbed", Reach: []string{"returned"},
 		Bound: "0..2 authorization data entries of any type, AD-IF-RELEVANT contents decoding to 0..2 entries"})
 	add(&Instance{Property: "C04", Name: "getkeyfrompassword-shapes", Entry: "crypto.VH_C04_GetKeyFromPasswordShapes", Params: p("maxseq", 2, "maxstr", 1, "maxbits", 4), Stubs: hv, Logic: "QF_UFBV", Replay: "stubbed", Reach: []string{"returned"},
@@ -417,6 +420,12 @@ func regC01(add addFn, p pFn) {
 	}
 }
 
+func regC01b(add addFn, p pFn) {
+	add(&Instance{Property: "C01", Name: "replay-from-another-address", Entry: "service.VH_C01_ReplayFromAnotherAddress", Params: p("maxseq", 1, "maxstr", 1, "maxbits", 4),
+		Stubs: c01Stubs, Logic: "QF_UFBV", Replay: "stubbed", Reach: []string{"first-accepted", "first-rejected"}, TimeoutS: 3000,
+		Bound: "one AP-REQ with arbitrary decoded content presented twice through VerifyAPREQ with two arbitrary client addresses; decoded sequences of 0..1 elements"})
+}
+
 func regC09(add addFn, p pFn) {
 	st := []string{"lineartime", "decryptstub", "asn1havoc", "nfolduf", "des3rtkuf"}
 	for _, c := range []int{0, 1} {
@@ -434,7 +443,7 @@ func regC09(add addFn, p pFn) {
 	add(&Instance{Property: "C09", Name: "krberror-surfaces", Entry: "client.VH_C09_KRBErrorSurfaces", Params: p("maxseq", 0, "strlens", 2, "maxbits", 4), Stubs: clientStubs, Logic: "QF_UFBV", Replay: "stubbed", Reach: []string{"done"},
 		Bound: "EVERY non-negative KRB-ERROR code (except the three the client acts on) as the KDC's answer to an AS-REQ and to a TGS-REQ"})
 	for pref := 0; pref <= 2; pref++ {
-		add(&Instance{Property: "C09", Name: "network-krberror-pref" + itoa(pref), Entry: "client.VH_C12_SendToKDC", Params: p("kdcs", 1, "pref", pref, "maxseq", 0, "maxstr", 0), Stubs: []string{"netstub", "asn1havoc", "randstub"}, Logic: "QF_UFBV", Replay: "stubbed",
+		add(&Instance{Property: "C09", Name: "network-krberror-pref" + itoa(pref), Entry: "client.VH_C12_SendToKDC", Params: p("kdcs", 1, "pref", pref, "exchanges", 1, "maxseq", 0, "maxstr", 0), Stubs: []string{"netstub", "asn1havoc", "randstub"}, Logic: "QF_UFBV", Replay: "stubbed",
 			Reach: []string{"krb-error"}, Bound: "one KDC, every endpoint behaviour; a KRB-ERROR answer (any code) must come back as that KRBError, passed over only for RESPONSE_TOO_BIG on UDP"})
 	}
 	add(&Instance{Property: "C09", Name: "tgsrep", Entry: "messages.VH_C09_TGSRepVerify", Params: p("maxseq", 1, "maxstr", 1, "maxbits", 4), Stubs: st, Logic: "QF_UFBV", Replay: "stubbed",
@@ -678,10 +687,14 @@ func regC12(add addFn, p pFn) {
 	st := []string{"netstub", "asn1havoc", "randstub"}
 	for _, n := range []int{1, 2} {
 		for pref := 0; pref <= 2; pref++ {
-			add(&Instance{Property: "C12", Name: "send-k" + itoa(n) + "-pref" + itoa(pref), Entry: "client.VH_C12_SendToKDC", Params: p("kdcs", n, "pref", pref, "maxseq", 0, "maxstr", 0), Stubs: st, Logic: "QF_UFBV", Replay: "stubbed", TimeoutS: 1200,
+			add(&Instance{Property: "C12", Name: "send-k" + itoa(n) + "-pref" + itoa(pref), Entry: "client.VH_C12_SendToKDC", Params: p("kdcs", n, "pref", pref, "exchanges", 1, "maxseq", 0, "maxstr", 0), Stubs: st, Logic: "QF_UFBV", Replay: "stubbed", TimeoutS: 1200,
 				Reach: []string{"failed", "answered", "krb-error"}, Bound: "n configured KDCs; EVERY assignment of {answers, refuses, silent/closes early, closes mid-reply (TCP)} to each (KDC, transport) endpoint; pref 0 always TCP / 1 TCP first / 2 UDP first; every shuffle outcome; a reply may or may not decode as a KRB-ERROR with any code"})
 		}
 	}
-	add(&Instance{Property: "C12", Name: "send-k3-pref1", Entry: "client.VH_C12_SendToKDC", Params: p("kdcs", 3, "pref", 1, "maxseq", 0, "maxstr", 0), Stubs: st, Logic: "QF_UFBV", Replay: "stubbed", Tier: "thorough", TimeoutS: 3000,
+	for pref := 0; pref <= 2; pref++ {
+		add(&Instance{Property: "C12", Name: "two-exchanges-k1-pref" + itoa(pref), Entry: "client.VH_C12_SendToKDC", Params: p("kdcs", 1, "pref", pref, "exchanges", 2, "maxseq", 0, "maxstr", 0), Stubs: st, Logic: "QF_UFBV", Replay: "stubbed", TimeoutS: 1200,
+			Reach: []string{"second-exchange", "answered", "failed"}, Bound: "two exchanges by one client with one KDC, the endpoint behaviours of the second unrelated to those of the first (state the client carries between exchanges)"})
+	}
+	add(&Instance{Property: "C12", Name: "send-k3-pref1", Entry: "client.VH_C12_SendToKDC", Params: p("kdcs", 3, "pref", 1, "exchanges", 1, "maxseq", 0, "maxstr", 0), Stubs: st, Logic: "QF_UFBV", Replay: "stubbed", Tier: "thorough", TimeoutS: 3000,
 		Reach: []string{"failed", "answered", "krb-error"}, Bound: "3 KDCs, TCP first"})
 }
